@@ -323,7 +323,7 @@ def store_commit_poison(ctx):
     qs = [PQuery("Store::commit: poisoned is checked before Sync::sync", cfg, ops, ["loaded", "synced", "stored"], {},
                  key="Store::commit:sync without poison check"),
           PQuery("Store::commit: an Err from Sync::sync is returned only after poisoned was set", cfg, ops3,
-                 ["loaded", "synced", "stored"], {}, key="Store::commit:Err without poisoning"),
+                 ["loaded", "synced", "stored"], {}, scenario="c14_ln_write_fails", key="Store::commit:Err without poisoning"),
           PQuery("Store::commit: the Err return after sync is reachable", cfg,
                  {bb: [("bad", None)] for bb in errs}, [], {}, expect="sat")]
     return qs, {"store::Store::commit @ nomt/src/store/mod.rs"}
